@@ -16,6 +16,7 @@ ServiceSets ==
     { << Svc("Control", 1, <<M("set", 0, "Sa", "Sb")>>) >>,
       << Svc("MotorControl", 3, <<M("set", 0, "Sa", "Sb"), M("get", 5, "Sb", "Sa")>>) >>,
       << Svc("motor_control", 0, <<M("ping", 1, "Sc", "Sc")>>), Svc("Other", 254, <<M("m", 255, "Sa", "Sb")>>) >>,
+      << Svc("Alpha", 1, <<M("x", 0, "Sa", "Sb")>>), Svc("Beta", 2, <<M("y", 1, "Sa", "Sb"), M("z", 2, "Sc", "Sb")>>) >>,   \* shared payloads
       << Svc("X1", 255, <<M("a", 0, "Sa", "Sa"), M("b", 1, "Sb", "Sb"), M("c", 2, "Sc", "Sa")>>) >> }
 MkR(svcs) == [structs |-> Payloads, enums |-> Enums, services |-> svcs]
 
